@@ -44,6 +44,12 @@ def run(db, rep, tier):
     rep.rule("R9-per-record-state", "record walkers decode each record from the message alone: a scalar or string local that the record loop "
                                     "assigns is (re)assigned on every path of the iteration before it is read", 0)
     r9(db, rep)
+    rep.rule("R10-name-octets", "the first octet of every name element is classified the same way wherever names are walked: 0 ends the name, "
+                                "11xxxxxx is a 2-octet pointer, 00xxxxxx a label of that length, anything else is malformed (all 256 values)", 1)
+    r10(db, rep)
+    rep.rule("R11-dname-types", "the record walker that relocates compression pointers inside record data handles exactly the types "
+                                "contains_dname() names (the types add_record encodes as names)", 1)
+    r11(db, rep)
     rep.rule("R8-pointer-space", "a decoded compression pointer (offset from the start of the MESSAGE) meets a records-relative offset only "
                                  "after the 12-byte header has been accounted for on one side", 4)
     r8(db, rep)
@@ -625,3 +631,118 @@ def r9(db, rep):
             else:
                 rep.ok("R9-per-record-state", key, facts.loc(f, decl), "assigned on every path of the iteration before each read")
     rep.extra["record_walkers"] = walkers
+
+
+def r10(db, rep):
+    from vlib import ieval
+    fs = [f for f in db.fns_named(DNS + "::skip_to_dname_end") if f.get("body")]
+    if not fs:
+        rep.analysis_broken("DNS::skip_to_dname_end vanished")
+        return
+    f = fs[0]
+    loops = [x for x in facts.fn_nodes(f) if x["k"] in ("WhileStmt", "ForStmt", "DoStmt")]
+    if not loops:
+        rep.analysis_broken("skip_to_dname_end: loop not found")
+        return
+    body = [x for x in loops[0]["c"] if x is not None][-1]
+    # the octet variable: a local initialised from stream.read<uint8_t>()
+    oct_ = None
+    for x in facts.walk(body):
+        if x["k"] == "VarDecl" and x.get("c") and any(y["k"] == "CXXMemberCallExpr" and y.get("cname") == "read" for y in facts.walk(x["c"][0])):
+            oct_ = x
+    if oct_ is None:
+        rep.analysis_broken("skip_to_dname_end: the octet read from the cursor was not found")
+        return
+    key = "skip_to_dname_end:first-octet"
+    bad = None
+
+    def tf(x):
+        if x["k"] == "CXXMemberCallExpr" and x.get("cname") == "read":
+            return tf.v
+        return None
+    try:
+        for v in range(256):
+            tf.v = v
+            tr = ieval.trace(f, body, {"__termfn__": tf})
+            kinds = [k for k, n in tr]
+            skips = [n for k, n in tr if k == "call" and "skip" in facts.expr_str(n)]
+            if v == 0:
+                want, got = "end", ("end" if kinds[-1:] == ["break"] and not skips else "other")
+            elif (v & 0xc0) == 0xc0:
+                ok = kinds[-1:] == ["break"] and len(skips) == 1 and facts.cval(skips[0]["c"][1]) == 1
+                want, got = "pointer", ("pointer" if ok else "other")
+            elif (v & 0xc0) == 0:
+                ok = "break" not in kinds and "throw" not in kinds and len(skips) == 1 and facts.cval(skips[0]["c"][1]) is None
+                want, got = "label", ("label" if ok else "other")
+            else:
+                want, got = "malformed", ("malformed" if kinds[-1:] == ["throw"] else "other")
+            if want != got:
+                bad = "first octet 0x%02x should be treated as %s; the walker does %s" % (v, want, kinds or "nothing")
+                break
+    except ieval.Unknown as e:
+        rep.analysis_broken("%s: outside the finite evaluator: %s" % (key, e))
+        return
+    if bad:
+        rep.violation("R10-name-octets", key, facts.loc(f, loops[0]), bad + ": legal messages are rejected or names are skipped wrongly "
+                      "(pointers to offsets >= 256 start with 0xc1..0xff)")
+    else:
+        rep.ok("R10-name-octets", key, facts.loc(f, loops[0]), "all 256 first-octet values classified as end / pointer / label / malformed")
+
+
+def r11(db, rep):
+    from vlib import ieval
+    cd = [f for f in db.fns_named(DNS + "::contains_dname") if f.get("body")]
+    ur = [f for f in db.fns_named(DNS + "::update_records") if f.get("body")]
+    en = db.enums.get(DNS + "::QueryType")
+    if not cd or not ur or en is None:
+        rep.analysis_broken("DNS::contains_dname / update_records / QueryType vanished")
+        return
+    cdf, f = cd[0], ur[0]
+    vals = sorted(set(e["v"] for e in en["enumerators"]) | {0, 255, 65535})
+    try:
+        S = set(v for v in vals if ieval.run_body(cdf, cdf["body"], {cdf["params"][0]["var"]: v}))
+    except ieval.Unknown as e:
+        rep.analysis_broken("contains_dname: outside the finite evaluator: %s" % e)
+        return
+    loops = [x for x in facts.fn_nodes(f) if x["k"] in ("ForStmt", "WhileStmt")]
+    if not loops:
+        rep.analysis_broken("update_records: record loop not found")
+        return
+    body = [x for x in loops[0]["c"] if x is not None][-1]
+    tv = [x for x in facts.walk(body) if x["k"] == "VarDecl" and x.get("name") == "type"]
+    if not tv:
+        rep.analysis_broken("update_records: the record type variable was not found")
+        return
+    typev = tv[0]["var"]
+    key = "update_records:dname-types"
+
+    def tf(x):
+        if x["k"] == "CallExpr" and x.get("cname") in ("be_to_host", "host_to_be"):
+            return tf.v
+        if x["k"] in ("CallExpr", "CXXMemberCallExpr") and x.get("cname") == "contains_dname":
+            return 1 if tf.v in S else 0
+        return None
+    got = set()
+    try:
+        for v in vals:
+            tf.v = v
+            tr = ieval.trace(f, body, {"__termfn__": tf, typev: v})
+            # the walk of the owner name is the first update_dname call; a second one is the rdata walk
+            n_ud = sum(1 for k, n in tr if k in ("call", "assign") and any(
+                y["k"] == "CXXMemberCallExpr" and y.get("cname") == "update_dname" for y in facts.walk(n)))
+            if n_ud >= 2:
+                got.add(v)
+    except ieval.Unknown as e:
+        rep.analysis_broken("%s: outside the finite evaluator: %s" % (key, e))
+        return
+    names = dict((e["v"], e["name"]) for e in en["enumerators"])
+    if got != S:
+        miss = sorted(S - got)
+        extra = sorted(got - S)
+        rep.violation("R11-dname-types", key, facts.loc(f, loops[0]),
+                      "pointers inside record data are relocated for types %s, but contains_dname() - and so add_record's encoder - says %s%s%s"
+                      % (sorted(names.get(v, v) for v in got), sorted(names.get(v, v) for v in S),
+                         "; not handled: %s" % [names.get(v, v) for v in miss] if miss else "",
+                         "; wrongly handled: %s" % [names.get(v, v) for v in extra] if extra else ""))
+    else:
+        rep.ok("R11-dname-types", key, facts.loc(f, loops[0]), "relocates record data of exactly %s" % sorted(names.get(v, v) for v in S))
